@@ -1,6 +1,7 @@
 mod alloc_count;
 mod bencode;
 mod common;
+mod fault;
 mod coop;
 mod http_sys;
 mod netmc;
@@ -13,6 +14,10 @@ mod ws_sys;
 static GLOBAL: alloc_count::Counting = alloc_count::Counting;
 
 fn main() {
+    let raw: Vec<String> = std::env::args().collect();
+    if raw.get(1).map(|s| s.as_str()) == Some("serve") {
+        netmc::serve(&raw[2..]);
+    }
     let args = common::parse_args();
     common::quiet_panics();
     let r = std::panic::catch_unwind(|| dispatch(&args));
@@ -36,6 +41,7 @@ fn dispatch(args: &common::Args) {
         "C13" => props::c13::main(args),
         "C14" => props::c14::main(args),
         "C15" => props::c15::main(args),
+        "C18" => props::c18::main(args),
         "C20" => props::c20::main(args),
         other => common::machinery_failure(&format!("unknown property id {}", other)),
     }
